@@ -6,7 +6,7 @@ open VirVerif
 
 def bitsOfTok (s : String) : Array Bool := (s.toList.map (· == '1')).toArray
 
-def natsOut (l : List Nat) : String := " ".intercalate (toString l.length :: l.map toString)
+def natsOut15 (l : List Nat) : String := " ".intercalate (toString l.length :: l.map toString)
 
 /-- region / mask given as flat C-order bits -/
 def maskFn (shape : List Nat) (bits : Array Bool) : List Int → Bool :=
@@ -58,7 +58,7 @@ def handleC15 : Handler := fun _ toks =>
     else
       let labs := (List.range cs.length).filterMap fun k =>
         if barr.getD k false then some (labels.getD k 0) else none
-      some ("OK " ++ maskStr bmask ++ " " ++ toString m ++ " " ++ natsOut labs)
+      some ("OK " ++ maskStr bmask ++ " " ++ toString m ++ " " ++ natsOut15 labs)
   | "c15label" :: nd :: rest =>
     let n := nd.toNat!
     if rest.length < n + 1 then some "ERR parse" else
@@ -69,7 +69,7 @@ def handleC15 : Handler := fun _ toks =>
     let (labels, m) := labelComponents shape (maskFn shape bits)
     let labs := (List.range cs.length).filterMap fun k =>
       if bits.getD k false then some (labels.getD k 0) else none
-    some ("OK " ++ toString m ++ " " ++ natsOut labs)
+    some ("OK " ++ toString m ++ " " ++ natsOut15 labs)
   | "c15sorter" :: opt :: start :: rest =>
     match takeFloats rest with
     | some (xs, r1) =>
@@ -88,11 +88,11 @@ def handleC15 : Handler := fun _ toks =>
           if bOfTok opt then
             let paths := ((List.range n).map fun i => sorterFrom adj d n i).toArray
             match optimalStart 0.0 (fun i => paths.getD i []) d n with
-            | some s => some s!"OK {tokOfB closed} {s} {natsOut (paths.getD s [])}"
+            | some s => some s!"OK {tokOfB closed} {s} {natsOut15 (paths.getD s [])}"
             | none => some "ERR empty"
           else
             let s := start.toNat!
-            some s!"OK {tokOfB closed} {s} {natsOut (sorterFrom adj d n s)}"
+            some s!"OK {tokOfB closed} {s} {natsOut15 (sorterFrom adj d n s)}"
         | none => some "ERR parse"
       | none => some "ERR parse"
     | none => some "ERR parse"
